@@ -100,6 +100,21 @@ impl Space for Ffi {
             let core = icu_kind::AnyCalendarKind::get_for_bcp47_bytes(cal_id.as_bytes()).map(|k| Calendar::new(k).identifier());
             same(out, "Calendar::create(get_for_bcp47_string)", Oc::Ok(format!("{created:?}")), Oc::Ok(format!("{core:?}")), attrs);
         }
+        if i == 0 {
+            // the name tables in full, whatever the calendar alphabet of the tier: every identifier, its aliases, and non-names
+            for id in ["iso8601", "buddhist", "chinese", "coptic", "dangi", "ethioaa", "ethiopic", "ethiopic-amete-alem", "gregory", "hebrew", "indian", "islamic", "islamic-civil", "islamicc", "islamic-tbla", "islamic-umalqura", "japanese", "japanext", "persian", "roc", "Gregory", "gregorian", "julian", ""] {
+                let kind = fcal::AnyCalendarKind::get_for_bcp47_string(id.as_bytes());
+                let ffi_kind = format!("{:?}", kind.map(|k| format!("{:?}", icu_kind::AnyCalendarKind::from(k))));
+                let core_kind = format!("{:?}", icu_kind::AnyCalendarKind::get_for_bcp47_bytes(id.as_bytes()).map(|k| format!("{k:?}")));
+                same(out, "AnyCalendarKind::get_for_bcp47_string (variant of the same name)", Oc::Ok(ffi_kind), Oc::Ok(core_kind), || vec![("identifier", id.to_string())]);
+                let created = kind.map(|k| fcal::Calendar::create(k).identifier());
+                let core = icu_kind::AnyCalendarKind::get_for_bcp47_bytes(id.as_bytes()).map(|k| Calendar::new(k).identifier());
+                same(out, "Calendar::create(get_for_bcp47_string)", Oc::Ok(format!("{created:?}")), Oc::Ok(format!("{core:?}")), || vec![("identifier", id.to_string())]);
+                let f = render(call(|| fr(fcal::Calendar::from_utf8(id.as_bytes())).map(|c| (c.identifier(), c.is_iso()))));
+                let c = render(call(|| Calendar::from_utf8(id.as_bytes()).map(|c| (c.identifier(), c.is_iso()))));
+                same(out, "Calendar::from_utf8", f, c, || vec![("text", id.to_string())]);
+            }
+        }
         let iso = |y: i32, m: u8, d: u8| fiso::IsoDate { year: y, month: m, day: d };
         let ciso = iso_date(y, m, dd);
         macro_rules! calget {
